@@ -330,3 +330,85 @@ func runC01(rc *RunCtx) {
 	simrt.Quiesce()
 	rc.Phase = "done"
 }
+
+// c01m: the key list as the server builds it from its configuration file (one
+// service, one TCP listener, the real main path): every configured key
+// authenticates, under an id that is configured with that cipher and secret, and
+// a key outside the list does not. The lists have secrets shared between ciphers
+// and duplicated entries.
+func init() {
+	Register(&Scenario{Name: "c01m", Prop: "C01", MaxSteps: 400000, Run: runC01m})
+}
+
+func runC01m(rc *RunCtx) {
+	G := rc.G
+	n := 2 + G.Draw(7)
+	keys := genKeys(G, n, "")
+	// bias towards the same secret under several ciphers
+	if G.Draw(2) == 0 {
+		base := keys[G.Draw(len(keys))]
+		for i, c := range cipherNames {
+			if G.Draw(2) == 0 {
+				keys = append(keys, mkKey(fmt.Sprintf("same-secret-%d", i), c, base.Secret))
+			}
+		}
+	}
+	for i := len(keys) - 1; i > 0; i-- {
+		j := G.Draw(i + 1)
+		keys[i], keys[j] = keys[j], keys[i]
+	}
+	// one id, two key materials in one list is not a shape the statement covers
+	var list []*Key
+	for _, k := range keys {
+		clash := false
+		for _, x := range list {
+			if x.ID == k.ID && !sameCrypto(x, k) {
+				clash = true
+			}
+		}
+		if !clash {
+			list = append(list, k)
+		}
+	}
+	addr := "127.0.0.1:9000"
+	cfg := &mCfg{Services: []mSvc{{Listeners: []mLn{{"tcp", addr}}, Keys: list}}}
+	ms, err := newMainSim(rc, []int{0, 1000}[G.Draw(2)], cfg)
+	if err != nil {
+		rc.Failf("valid-config-rejected", "a configuration with %d keys failed to load: %v\n%s", len(list), err, cfg.YAML())
+		return
+	}
+	rc.D("keys %v", list)
+	outsider := mkKey("outsider", cipherNames[G.Draw(4)], "not-in-the-list")
+	nP := 2 + G.Draw(8)
+	for p := 0; p < nP; p++ {
+		if G.Draw(6) == 0 {
+			res := ms.probeTCP(addr, outsider, nil)
+			rc.Probe("must_reject")
+			if res.authID != "" {
+				rc.Failf("unconfigured-authenticated", "a stream under %s, which is not in the list, was authenticated as %q", outsider, res.authID)
+			}
+			continue
+		}
+		k := list[G.Draw(len(list))]
+		res := ms.probeTCP(addr, k, nil)
+		rc.Probe("must_authenticate")
+		if res.authID == "" && freshRefusalExcused(rc, k, res.wire) {
+			continue
+		}
+		ok := map[string]bool{}
+		for _, x := range list {
+			if sameCrypto(x, k) {
+				ok[x.ID] = true
+			}
+		}
+		if res.authID == "" {
+			rc.Failf("configured-key-rejected", "a stream valid under %s, configured in a list of %d keys, was not authenticated (status %s)\n%s", k, len(list), res.status, cfg.YAML())
+		} else if !ok[res.authID] {
+			rc.Failf("wrong-attribution", "a stream under %s was attributed to id %q, which is not configured with that cipher and secret (acceptable: %v)", k, res.authID, simrt.SortedKeys(ok))
+		}
+	}
+	rc.Nontrivial = true
+	ms.Srv.StopForVerif()
+	simrt.Quiesce()
+	rc.Phase = "done"
+}
